@@ -34,6 +34,9 @@ TRUSTED = [
     "QUOTE_MINIMAL + reader state machine, excel dialect), tied by the correspondence runs of this harness",
     "Spec/TableRows.lean (list-of-row-tuples operations) and the python row oracle in harness/c20.py",
     "Model/CastStr.lean (int/float/text decision of cast_str_to_numeric; float64 parsing and repr are hypotheses of the theorem)",
+    "translator/c20_args2lean.py (ast translation of the argument-resolution statements of Table.sorted / inner_join / "
+    "joined into Gen/C20Args.lean, every run) and its value domain Model/TableArgs.lean (None | str | list | tuple of "
+    "column NAMES; total primitives, TypeError guards only at strict positions; int positions / slices / masks outside)",
     "numpy fancy/boolean indexing, numpy.rec argsort (any sorting permutation), CPython csv/json/pickle/gzip "
     "are modelled or used as oracles, not verified",
 ]
@@ -48,7 +51,9 @@ ASSUMPTIONS = [
     "the eval()-based mixed-type inference of cast_str_to_array is exercised, not modelled; strings that would "
     "call functions / build huge values under eval are not generated (the harness must survive)",
     "tables are generated with and without index_name (unique labels; shown first) for every op; callbacks are python "
-    "callables and string expressions; columns= is spelled as str / list / tuple in any order",
+    "callables and string expressions; columns= is spelled as str / list / tuple in any order; join keys as None / str / "
+    "list / tuple / positions on either or both sides; empty key arguments ([] / () / '') and a bare position 0 are not "
+    "generated (see join_keys_empty_side_counter, sort_args_empty_tuple_counter)",
     "summed / normalized / to_categorical / head+tail (through the repr policy) / row selection by index label are "
     "exercised against the row oracle only (no Lean model, no theorem); row masks are only used on tables without "
     "index_name (DictArrayTemplate does not accept them) and int index labels are not used for row slicing (ambiguous)",
@@ -635,7 +640,10 @@ def gen_case(rng, op=None):
                 else:
                     cols.append(gen_column(rng, rng.choice(["int", "float", "str", "bool", "mixed"]), m))
             others.append(dict(header=names, cols=cols, title=rng.choice(["", "o%d" % i, "second"])))
-        return dict(op=op, t=t, others=others, new=rng.choice([None, "src", "which one"]))
+        case = dict(op=op, t=t, others=others, new=rng.choice([None, "src", "which one"]))
+        if rng.random() < 0.25:
+            case["as_list"] = True
+        return case
     if op == "transposed":
         n = rng.choice([0, 1, 2, 3, 4])
         ncols = rng.choice([1, 2, 3, 4])
@@ -755,6 +763,68 @@ def gen_join_args(rng, op):
             if a["form"] in ("list", "tuple"):
                 a["form"], a["ints"] = "ints", [td["header"].index(c) for c in a["names"]]
     return case
+
+
+def gen_arg_corner(rng):
+    """the argument forms the docstrings do not speak about: empty list / tuple / '' as key or sort columns, a name
+    reverse given as tuple with columns=None.  The HAND model (sortArgs / joinKeysH, Lean)
+    says what the code does with them; used by the failing-input search (`args_vs_hand`)."""
+    if rng.random() < 0.45:
+        c = gen_case(rng, "sorted")
+        c.pop("columns_form", None)
+        c.pop("reverse_form", None)
+        ok = sortable(c["t"])
+        # (a name REPEATED in `reverse` is not generated: the later loop of Table.sorted then reverses that column
+        # twice, or numpy rejects the duplicated field - outside both the argument resolution and the table model)
+        k = rng.choice(["rev_empty", "rev_tuple", "cols_tuple_rev_str", "plain"])
+        if k == "rev_empty":
+            c["reverse"] = []
+            c["reverse_form"] = rng.choice(["list", "tuple"])
+            if c["columns"] is None or c["reverse_form"] == "tuple" and rng.random() < 0.5:
+                c["columns"] = rng.sample(ok, rng.randint(1, min(2, len(ok))))  # (reverse=() with columns=None: no key at all)
+        elif k == "rev_tuple":
+            c["columns"], c["reverse"], c["reverse_form"] = None, rng.sample(ok, rng.randint(1, min(2, len(ok)))), "tuple"
+        elif k == "cols_tuple_rev_str":
+            c["columns"], c["columns_form"] = rng.sample(ok, rng.randint(1, min(2, len(ok)))), "tuple"
+            c["reverse"] = rng.choice(ok)
+        return c
+    c = gen_join_args(rng, rng.choice(["inner_join_args", "inner_join_args", "joined_args"]))
+    if c.get("mode") in ("index", "index_missing", "cross", "cross_cols"):
+        return c
+    for k in ("cs", "co"):
+        if c[k]["form"] == "ints":
+            c[k]["form"] = "list"
+    k = rng.choice(["empty_other", "empty_both", "empty_self", "empty_str", "plain"])
+    empty = lambda: dict(form=rng.choice(["list", "tuple"]), names=[])  # noqa: E731
+    if k == "empty_other":
+        c["co"] = empty()
+    elif k == "empty_both":
+        c["cs"], c["co"] = empty(), empty()
+    elif k == "empty_self":
+        c["cs"] = empty()
+    elif k == "empty_str":
+        c[rng.choice(["cs", "co"])] = dict(form="str", names=[""])
+    return c
+
+
+def check_args_vs_hand(ctx, case):
+    """REAL sorted / inner_join / joined vs the Lean HAND model of the argument resolution (sortArgs, joinKeysH,
+    joinedCallH - what the theorems sorted_args_translated / join_keys_translated are about) followed by the table
+    model.  None or (what, expected, got, sig)"""
+    if not modelable(case) or getattr(ctx, "driver", None) is None:
+        return None
+    cmd, d = model_req(case)
+    d = dict(d, hand=True)
+    rep = ctx.driver.batch([(cmd, d)])[0]
+    real = run_real(case)
+    diff = compare_model_real(case, rep, real)
+    if diff is None:
+        return None
+    forms = "+".join(
+        f"{k}={'none' if v is None else type(v).__name__ if not isinstance(v, dict) else v['form'] + ('-empty' if v['form'] != 'none' and not v['names'] else '')}"
+        for k, v in ((k, case.get(k)) for k in ("columns", "reverse", "cs", "co")) if k in case
+    )
+    return (f"{case['op']}: the code resolves its arguments differently from the hand model ({diff[0]})", diff[1], show(diff[2]), f"args:{case['op']}:{forms}")
 
 
 # --------------------------------------------------------------------------
@@ -893,7 +963,10 @@ def run_real(case):
         elif op == "with_new_column":
             r = t.with_new_column(case["new"], real_callback(case, "fn"), columns=spell_cols(case))
         elif op == "appended":
-            r = t.appended(case["new"], *[real_table(o) for o in case["others"]])
+            if case.get("as_list"):  # the tables may also be given as ONE list / tuple
+                r = t.appended(case["new"], [real_table(o) for o in case["others"]])
+            else:
+                r = t.appended(case["new"], *[real_table(o) for o in case["others"]])
         elif op == "transposed":
             r = t.transposed(case["new"], select_as_header=case["select"])
         else:
@@ -1209,7 +1282,15 @@ def numeric_sum(values):
 
 
 def gen_extra(rng):
-    kind = rng.choice(["summed", "summed", "normalized", "to_categorical", "repr_policy"])
+    kind = rng.choice(["summed", "summed", "normalized", "to_categorical", "repr_policy", "to_list", "to_list", "to_dict"])
+    if kind in ("to_list", "to_dict"):
+        # the observation methods themselves, with their arguments: to_list(columns = None | name | names), to_dict()
+        t = gen_table(rng, nrows=rng.choice([0, 1, 2, 3, 5]), ncols=rng.choice([1, 2, 3, 4]))
+        if t.get("index") is not None and any(not isinstance(v, str) for v in t["cols"][t["header"].index(t["index"])]):
+            t.pop("index")  # (to_dict keys: text labels only)
+        H = t["header"]
+        cols = rng.choice([None, rng.choice(H), rng.sample(H, rng.randint(1, len(H))), tuple(rng.sample(H, rng.randint(1, len(H))))])
+        return dict(kind=kind, t=t, columns=cols, form="tuple" if isinstance(cols, tuple) else None)
     if kind == "summed":
         strict = rng.random() < 0.5
         n = rng.choice([1, 2, 3, 5])
@@ -1273,6 +1354,30 @@ def check_extra(c):
             got = got.tolist() if hasattr(got, "tolist") else got
             if canon(got) != canon(exp):
                 return (f"summed(indices={c['indices']}, col_sum={c['col_sum']}, strict={c['strict']}) differs", show(exp), show(got), f"summed:{'col' if c['col_sum'] else 'row'}:{'strict' if c['strict'] else 'nonstrict'}")
+            return None
+        if kind == "to_list":
+            cols = tuple(c["columns"]) if c.get("form") == "tuple" else c["columns"]
+            got = rt.to_list() if cols is None else rt.to_list(cols)
+            want = H if cols is None else ([cols] if isinstance(cols, str) else list(cols))
+            if len(want) == 1:
+                exp = [r[H.index(want[0])] for r in R]  # "If one column, a 1D list is returned"
+            else:
+                k = t.get("index")
+                if k is not None:
+                    want = [k] + [x for x in want if x != k]  # get_columns: the index column comes along, first
+                exp = [[r[H.index(x)] for x in want] for r in R]
+            if canon(got) != canon(exp):
+                return (f"to_list(columns={cols!r}) differs from the rows", show(exp), show(got), "to_list:" + ("all" if cols is None else "one" if len(want) == 1 else "some"))
+            return None
+        if kind == "to_dict":
+            got = rt.to_dict()
+            k = t.get("index")
+            keys = [r[H.index(k)] for r in R] if k is not None else list(range(len(R)))
+            exp = {key: {h: v for h, v in zip(H, r)} for key, r in zip(keys, R)}
+            g2 = {kk: {h: canon(v) for h, v in row.items()} for kk, row in got.items()}
+            e2 = {kk: {h: canon(v) for h, v in row.items()} for kk, row in exp.items()}
+            if g2 != e2:
+                return ("to_dict() differs from {row key: {column: value}}", show(sorted(e2.items(), key=repr)), show(sorted(g2.items(), key=repr)), "to_dict")
             return None
         if kind == "normalized":
             r = rt.normalized(by_row=c["by_row"])
@@ -1574,9 +1679,18 @@ def gen_variant(rng, td):
 def _gen_variant(rng, td):
     r = rng.random()
     nrows = len(td["cols"][0]) if td["cols"] else 0
+    if r < 0.08:
+        # the format is an ARGUMENT of write (the file name says nothing), the separator an argument of load_table
+        return dict(fmt="txt", wformat=rng.choice(["tsv", "csv"]))
+    if r < 0.14:
+        # compress=True: write() appends .gz to the name
+        return dict(fmt=rng.choice(["tsv", "csv"]), compress=True)
     if r < 0.3:
         sep = rng.choice([",", "\t", ";", "|"])
-        return dict(fmt="txt", sep=sep)
+        v = dict(fmt="txt", sep=sep)
+        if rng.random() < 0.3:
+            v["delimiter_kw"] = True  # load_table(..., delimiter=sep) is the other spelling of sep=
+        return v
     if r < 0.4:
         fmt = rng.choice(["tsv", "csv", "tsv.gz"])
         return dict(fmt=fmt, sep="\t" if fmt.startswith("tsv") else ",")
@@ -1608,11 +1722,21 @@ def check_file(ctx, td, fmt, variant=None, counter=[0]):
     dsep = sep or {"tsv": "\t", "csv": ","}.get(base)
     index = td.get("index")
     make_index = None if td.get("index_at_load_only") else index
-    vtag = "+".join(k for k in ("sep", "limit", "inconsistent", "reader", "writer") if k in v) or "plain"
+    vtag = "+".join(k for k in ("sep", "limit", "inconsistent", "reader", "writer", "wformat", "compress", "delimiter_kw") if k in v) or "plain"
+    if v.get("wformat"):
+        dsep = {"tsv": "\t", "csv": ","}[v["wformat"]]
+    load_path = path
     try:
         t = make_table(header=list(H), data={h: list(c) for h, c in zip(H, td["cols"])}, title=td.get("title", ""), legend=td.get("legend", ""), index_name=make_index)
         if v.get("writer"):
             t.write(str(path), writer=separator_formatter(sep=dsep))
+        elif v.get("wformat"):
+            t.write(str(path), format=v["wformat"])
+        elif v.get("compress"):
+            t.write(str(path), compress=True)
+            load_path = path.with_name(path.name + ".gz")
+            if path.exists() or not load_path.exists():
+                return (f"write({fmt}, compress=True) did not write {load_path.name}", load_path.name, sorted(x.name for x in path.parent.iterdir())[:5], f"write:{base}:compress:filename")
         elif sep is not None:
             t.write(str(path), sep=sep)
         else:
@@ -1641,7 +1765,9 @@ def check_file(ctx, td, fmt, variant=None, counter=[0]):
             if index is not None:
                 kw["index_name"] = index
         if sep is not None:
-            kw["sep"] = sep
+            kw["delimiter" if v.get("delimiter_kw") else "sep"] = sep
+        if v.get("wformat"):
+            kw["sep"] = dsep
         if "limit" in v:
             kw["limit"] = v["limit"]
             td["cols"] = [c[: v["limit"]] for c in td["cols"]]
@@ -1652,7 +1778,7 @@ def check_file(ctx, td, fmt, variant=None, counter=[0]):
             kw = dict(reader=FilteringParser(sep=dsep, with_header=True), **({"index_name": index} if index is not None else {}))
         if delimited:
             kw.update(v.get("load_kw") or {})  # arguments that must not change the data
-        r = load_table(str(path), **kw)
+        r = load_table(str(load_path), **kw)
         if v.get("inconsistent") == "raise":
             return (f"load_table({fmt}) accepted a row with a different number of fields", "ValueError", list(r.shape), f"load:delimited:{vtag}:accepted")
         got_header = [str(h) for h in r.header]
@@ -1672,10 +1798,11 @@ def check_file(ctx, td, fmt, variant=None, counter=[0]):
             f"load:{'delimited' if delimited else base}:raises:{type(e).__name__}:{'zero-rows' if nrows == 0 else 'rows'}",
         )
     finally:
-        try:
-            path.unlink()
-        except OSError:
-            pass
+        for pth in {path, load_path}:
+            try:
+                pth.unlink()
+            except OSError:
+                pass
     if got_index != index:
         return (f"{fmt}: index_name differs after round trip", index, got_index, f"load:{'delimited' if delimited else base}:index")
     kind = "delimited" if delimited else base
@@ -2181,6 +2308,18 @@ def spec_check(ctx, budget):
             out["nontrivial"].add((case["op"], repr(case)[:300]))
         if len(out["samples"]) < 6 and real.get("rows") and len(real["rows"]) > 2 and case["op"] not in ("sorted",):
             out["samples"].append(dict(case=show(case), result=show(real["rows"][:6])))
+    # argument forms at the corners (empty list / tuple / '' as columns, tuples): REAL vs the Lean HAND model of the
+    # argument resolution - the spec side of sorted_args_translated / join_keys_translated / joined_call_translated
+    arng = ctx.subrng(f"args{budget}")
+    for _ in range(300 * budget):
+        acase = gen_arg_corner(arng)
+        out["evaluations"] += 1
+        bump(out, "arg_corner_op", acase["op"])
+        f = check_args_vs_hand(ctx, acase)
+        if f:
+            fail(f[0], dict(kind="args", case=acase), f[1], f[2], f[3])
+        else:
+            out["nontrivial"].add(("args", repr(acase)[:300]))
     # ops outside the Lean model
     xrng = ctx.subrng(f"extra{budget}")
     for _ in range(400 * budget):
@@ -2259,6 +2398,8 @@ def spec_check(ctx, budget):
 def _check_input(ctx, inp):
     if inp.get("kind") == "history":
         f = check_history(ctx, inp["hist"])
+    elif inp.get("kind") == "args":
+        f = check_args_vs_hand(ctx, inp["case"])
     elif inp.get("kind") == "extra":
         f = check_extra(inp["case"])
     elif inp.get("kind") == "format":
